@@ -98,6 +98,8 @@ pub struct Rt {
     pub active: bool,
     idle_marker: bool,
     forced: Option<usize>,
+    pub preempted_in_poll: bool,
+    pub in_callback: bool,
 }
 
 thread_local! {
@@ -200,10 +202,15 @@ impl Rt {
             active: false,
             idle_marker: false,
             forced: None,
+            preempted_in_poll: false,
+            in_callback: false,
         }
     }
 
     pub fn cur_label(&self) -> String {
+        if self.in_callback {
+            return "--cb".to_string();
+        }
         match self.current {
             Some(id) => format!("t{}", id),
             None => "--".to_string(),
@@ -399,6 +406,7 @@ impl Rt {
             }
         });
         if v == 1 {
+            self.preempted_in_poll = true;
             self.evv("preempt", site);
         }
         v == 1
@@ -660,6 +668,7 @@ pub fn block_on<F: Future>(fut: F) -> F::Output {
                     rt.tasks[id].queued.store(false, Ordering::SeqCst);
                     rt.current = Some(id);
                     rt.steps += 1;
+                    rt.preempted_in_poll = false;
                     rt.evv("run", "");
                     rt.tasks[id].fut.take()
                 });
@@ -684,7 +693,11 @@ pub fn block_on<F: Future>(fut: F) -> F::Output {
                         });
                         return v;
                     }
-                    with(|rt| rt.current = None);
+                    with(|rt| {
+                        let k = if rt.preempted_in_poll { "yield" } else { "park" };
+                        rt.evv(k, "");
+                        rt.current = None
+                    });
                 } else if let Some(mut f) = fut_opt {
                     let w = with(|rt| rt.tasks[id].waker.clone());
                     let mut cx = Context::from_waker(&w);
@@ -695,7 +708,13 @@ pub fn block_on<F: Future>(fut: F) -> F::Output {
                                 rt.tasks[id].done = true;
                                 rt.evv("task-done", "");
                             }
-                            Poll::Pending => rt.tasks[id].fut = Some(f),
+                            Poll::Pending => {
+                                rt.tasks[id].fut = Some(f);
+                                // "park": every branch the task was waiting on has been polled
+                                // and is pending; "yield": it was pre-empted somewhere
+                                let k = if rt.preempted_in_poll { "yield" } else { "park" };
+                                rt.evv(k, "");
+                            }
                         }
                         rt.current = None;
                     });
